@@ -57,7 +57,7 @@ pub open spec fn fp_closure(f: Function, fwd: bool, l: Loc) -> bool {
 
 //@ source lib/analysis/fixed_point.rs
 //@ itemx trait FixedPointAnalysis
-//@ rewrite 1 `fn trans(` => `spec fn an_inv(&self, f: Function) -> bool; spec fn st_inv(&self, s: State) -> bool; spec fn le(&self, a: State, b: State) -> bool; spec fn trans_spec(&self, f: Function, l: Loc, s: Option<State>) -> State; spec fn trans_err(&self, f: Function, l: Loc, s: Option<State>, e: Error) -> bool; spec fn join_spec(&self, a: State, b: State) -> State; spec fn cmp_exact(&self) -> bool; spec fn monotone(&self, f: Function, fwd: bool) -> bool; proof fn law_partial_cmp() ensures <State as vstd::std_specs::cmp::PartialOrdSpec>::obeys_partial_cmp_spec(); proof fn law_clone(&self, a: State, b: State) requires cloned(a, b), self.st_inv(a) ensures self.st_inv(b), self.le(a, b), self.le(b, a); proof fn law_le_refl(&self, a: State) requires self.st_inv(a) ensures self.le(a, a); proof fn law_le_trans(&self, a: State, b: State, c: State) requires self.st_inv(a), self.st_inv(b), self.st_inv(c), self.le(a, b), self.le(b, c) ensures self.le(a, c); proof fn law_join_inv(&self, a: State, b: State) requires self.st_inv(a), self.st_inv(b) ensures self.st_inv(self.join_spec(a, b)); proof fn law_join_ub(&self, a: State, b: State) requires self.st_inv(a), self.st_inv(b) ensures self.le(a, self.join_spec(a, b)), self.le(b, self.join_spec(a, b)); proof fn law_join_least(&self, a: State, b: State, c: State) requires self.st_inv(a), self.st_inv(b), self.st_inv(c), self.le(a, c), self.le(b, c) ensures self.le(self.join_spec(a, b), c); proof fn law_trans_inv(&self, f: Function, fwd: bool, l: Loc, s: Option<State>) requires self.an_inv(f), f.function_wf(), fp_closure(f, fwd, l), s matches Some(x) ==> self.st_inv(x) ensures self.st_inv(self.trans_spec(f, l, s)); proof fn law_trans_cong(&self, f: Function, fwd: bool, l: Loc, s1: State, s2: State) requires self.an_inv(f), f.function_wf(), fp_closure(f, fwd, l), self.st_inv(s1), self.st_inv(s2), self.le(s1, s2), self.le(s2, s1) ensures self.le(self.trans_spec(f, l, Some(s1)), self.trans_spec(f, l, Some(s2))); proof fn law_cmp_exact(&self, new: State, old: State) requires self.cmp_exact(), self.st_inv(new), self.st_inv(old), vstd::std_specs::cmp::PartialOrdSpec::partial_cmp_spec(&new, &old) == Some(core::cmp::Ordering::Equal) ensures self.le(new, old), self.le(old, new); proof fn law_trans_mono(&self, f: Function, fwd: bool, l: Loc, s1: Option<State>, s2: Option<State>) requires self.monotone(f, fwd), self.an_inv(f), f.function_wf(), fp_closure(f, fwd, l), s1 matches Some(x) ==> self.st_inv(x), s2 matches Some(x) ==> self.st_inv(x), s1 matches Some(x1) ==> (s2 matches Some(x2) && self.le(x1, x2)), (s1 is None && s2 is Some) ==> start_loc(f, fwd) == Some(l) ensures self.le(self.trans_spec(f, l, s1), self.trans_spec(f, l, s2)); proof fn law_cmp_equal(&self, f: Function, fwd: bool, new: State, old: State) requires self.monotone(f, fwd), self.st_inv(new), self.st_inv(old), self.le(old, new), vstd::std_specs::cmp::PartialOrdSpec::partial_cmp_spec(&new, &old) == Some(core::cmp::Ordering::Equal) ensures self.le(new, old); proof fn law_cmp_ascending(&self, f: Function, fwd: bool, new: State, old: State) requires self.monotone(f, fwd), self.st_inv(new), self.st_inv(old), self.le(old, new) ensures vstd::std_specs::cmp::PartialOrdSpec::partial_cmp_spec(&new, &old) == Some(core::cmp::Ordering::Equal) || vstd::std_specs::cmp::PartialOrdSpec::partial_cmp_spec(&new, &old) == Some(core::cmp::Ordering::Greater); fn trans(` ## R-trait-contract: adds ghost members (spec vocabulary and proof obligations, erased at compile time) in front of the first method; no executable member is added or changed
+//@ rewrite 1 `fn trans(` => `spec fn an_inv(&self, f: Function) -> bool; spec fn st_inv(&self, s: State) -> bool; spec fn le(&self, a: State, b: State) -> bool; spec fn trans_spec(&self, f: Function, l: Loc, s: Option<State>) -> State; spec fn trans_err(&self, f: Function, l: Loc, s: Option<State>, e: Error) -> bool; spec fn join_spec(&self, a: State, b: State) -> State; spec fn cmp_exact(&self) -> bool; spec fn monotone(&self, f: Function, fwd: bool) -> bool; proof fn law_partial_cmp() ensures <State as vstd::std_specs::cmp::PartialOrdSpec>::obeys_partial_cmp_spec(); proof fn law_clone(&self, a: State, b: State) requires cloned(a, b), self.st_inv(a) ensures self.st_inv(b), self.le(a, b), self.le(b, a); proof fn law_le_refl(&self, a: State) requires self.st_inv(a) ensures self.le(a, a); proof fn law_le_trans(&self, a: State, b: State, c: State) requires self.st_inv(a), self.st_inv(b), self.st_inv(c), self.le(a, b), self.le(b, c) ensures self.le(a, c); proof fn law_join_inv(&self, a: State, b: State) requires self.st_inv(a), self.st_inv(b) ensures self.st_inv(self.join_spec(a, b)); proof fn law_join_ub(&self, a: State, b: State) requires self.st_inv(a), self.st_inv(b) ensures self.le(a, self.join_spec(a, b)), self.le(b, self.join_spec(a, b)); proof fn law_join_least(&self, a: State, b: State, c: State) requires self.st_inv(a), self.st_inv(b), self.st_inv(c), self.le(a, c), self.le(b, c) ensures self.le(self.join_spec(a, b), c); proof fn law_trans_inv(&self, f: Function, fwd: bool, l: Loc, s: Option<State>) requires self.an_inv(f), f.function_wf(), fp_closure(f, fwd, l), s matches Some(x) ==> self.st_inv(x) ensures self.st_inv(self.trans_spec(f, l, s)); proof fn law_trans_cong(&self, f: Function, fwd: bool, l: Loc, s1: State, s2: State) requires self.an_inv(f), f.function_wf(), fp_closure(f, fwd, l), self.st_inv(s1), self.st_inv(s2), self.le(s1, s2), self.le(s2, s1) ensures self.le(self.trans_spec(f, l, Some(s1)), self.trans_spec(f, l, Some(s2))); proof fn law_cmp_exact(&self, new: State, old: State) requires self.cmp_exact(), self.st_inv(new), self.st_inv(old), vstd::std_specs::cmp::PartialOrdSpec::partial_cmp_spec(&new, &old) == Some(core::cmp::Ordering::Equal) ensures self.le(new, old), self.le(old, new); proof fn law_trans_mono(&self, f: Function, fwd: bool, l: Loc, s1: Option<State>, s2: Option<State>) requires self.monotone(f, fwd), self.an_inv(f), f.function_wf(), fp_closure(f, fwd, l), s1 matches Some(x) ==> self.st_inv(x), s2 matches Some(x) ==> self.st_inv(x), s1 matches Some(x1) ==> (s2 matches Some(x2) && self.le(x1, x2)), (s1 is None && s2 is Some) ==> (start_loc(f, fwd) == Some(l) && exists|p: Loc| #[trigger] input_of(f, fwd, l, p)) ensures self.le(self.trans_spec(f, l, s1), self.trans_spec(f, l, s2)); proof fn law_cmp_equal(&self, f: Function, fwd: bool, new: State, old: State) requires self.monotone(f, fwd), self.st_inv(new), self.st_inv(old), self.le(old, new), vstd::std_specs::cmp::PartialOrdSpec::partial_cmp_spec(&new, &old) == Some(core::cmp::Ordering::Equal) ensures self.le(new, old); proof fn law_cmp_ascending(&self, f: Function, fwd: bool, new: State, old: State) requires self.monotone(f, fwd), self.st_inv(new), self.st_inv(old), self.le(old, new) ensures vstd::std_specs::cmp::PartialOrdSpec::partial_cmp_spec(&new, &old) == Some(core::cmp::Ordering::Equal) || vstd::std_specs::cmp::PartialOrdSpec::partial_cmp_spec(&new, &old) == Some(core::cmp::Ordering::Greater); fn trans(` ## R-trait-contract: adds ghost members (spec vocabulary and proof obligations, erased at compile time) in front of the first method; no executable member is added or changed
 //@ rewrite 1 `state: Option<State>, ) -> Result<State, Error>;` => `state: Option<State>, ) -> (r: Result<State, Error>) requires location.rpl_wf(), self.an_inv(*location.function), state matches Some(s) ==> self.st_inv(s), ensures r matches Ok(s) ==> self.st_inv(s) && self.le(s, self.trans_spec(*location.function, location.loc(), state)) && self.le(self.trans_spec(*location.function, location.loc(), state), s), r matches Err(e) ==> self.trans_err(*location.function, location.loc(), state, e);` ## R-trait-contract: names the result and attaches the contract to the trait method; the executable signature `fn trans(&self, location, state) -> Result<State, Error>` is unchanged
 //@ rewrite 1 `state1: &State) -> Result<State, Error>;` => `state1: &State) -> (r: Result<State, Error>) requires self.st_inv(state0), self.st_inv(*state1), ensures r matches Ok(s) && self.st_inv(s) && self.le(s, self.join_spec(state0, *state1)) && self.le(self.join_spec(state0, *state1), s);` ## R-trait-contract: names the result and attaches the contract to the trait method; the executable signature `fn join(&self, state0, state1) -> Result<State, Error>` is unchanged
 //@ end
